@@ -742,13 +742,15 @@ def gen_value(src):
     if how in ("time3", "time4"):
         h, mi, s = src.int(0, 23), src.int(0, 59), src.int(0, 59)
         frac = gen_fraction(src)
-        if len(frac) > 10:
-            frac = frac[:10]
         ns = int((frac[1:] + "000000000")[:9]) if frac else 0
         sec = "%d%s" % (s, frac)
+        # a seconds argument finer than a nanosecond: whether it is cut or rounded is not C14's subject, so no value is expected; the text
+        # of whatever time results must still be a valid literal that reads back equal
+        beyond = len(frac) > 10
         if how == "time3":
             return {"kind": "time", "how": how, "expr": "time(%d, %d, %s)" % (h, mi, sec),
-                    "expect": {"k": "time", "h": h, "mi": mi, "s": s, "ns": ns, "z": None}, "nt": bool(ns)}
+                    "expect": None if beyond else {"k": "time", "h": h, "mi": mi, "s": s, "ns": ns, "z": None}, "nt": bool(ns),
+                    "labels": ["seconds-finer-than-nanoseconds"] if beyond else []}
         cls = src.weighted([(6, "in"), (2, "subhour"), (2, "out"), (1, "edge")])
         if cls == "in":
             off = src.int(-53999, 53999)
@@ -761,9 +763,9 @@ def gen_value(src):
         else:
             off = src.choice([1, -1]) * src.int(54000, 10 ** 7)
         dur = cal.fmt_dtd(off * cal.NS)
-        expect = {"k": "time", "h": h, "mi": mi, "s": s, "ns": ns, "z": ["off", off]} if abs(off) <= 53999 else "null"
+        expect = ({"k": "time", "h": h, "mi": mi, "s": s, "ns": ns, "z": ["off", off]} if not beyond else None) if abs(off) <= 53999 else "null"
         return {"kind": "time", "how": how, "expr": 'time(%d, %d, %s, duration("%s"))' % (h, mi, sec, dur), "expect": expect,
-                "labels": ["offset:" + cls], "nt": True}
+                "labels": ["offset:" + cls] + (["seconds-finer-than-nanoseconds"] if beyond else []), "nt": True}
     if how == "dt2":
         y = gen_year(src)
         m = src.int(1, 12)
@@ -883,7 +885,7 @@ FRACTION_BASES = [("time", "23:59:59%s"), ("time", "00:00:00%sZ"), ("time", "12:
 
 def enum_fractions(ctx):
     rnd = random.Random("C14/%s/fractions" % ctx.seed)        # the same list in every worker: ctx.mine() partitions it
-    per = ctx.scale(40, 400)
+    per = ctx.scale(40, 3200)
     for n in range(0, 13):
         pats = []
         if n == 0:
@@ -1021,8 +1023,8 @@ def run(ctx):
     ctx.enumerate(ctx.p_dur_checked, (c for c in enum_durations(ctx) if c["src"] == "durations-huge"),
                   name="huge durations on the overflow-checked build", exhaustive=True)
     ctx.enumerate(ctx.p_corrupt, enum_corruptions(ctx), name="single-character corruptions of valid literals", exhaustive=ctx.thorough())
-    ctx.forall(ctx.p_lit, ctx.scale(40000, 800000))
-    ctx.forall(ctx.p_val, ctx.scale(20000, 400000))
+    ctx.forall(ctx.p_lit, ctx.scale(40000, 6400000))
+    ctx.forall(ctx.p_val, ctx.scale(20000, 3200000))
 
 
 if __name__ == "__main__":
